@@ -147,9 +147,7 @@ func UpdateFloatLastFast(iRec, rec *Record, recColumn, iRecColumn, recRow, iRecR
 	})
 }
 
-// keep decides between two values of one timestamp: first() keeps the smaller one (false), last()
-// the larger one (true), as BooleanFirstMerge / BooleanLastMerge of the executor do.
-func updateBooleanFirstLastImp(iRec, rec *Record, recColumn, iRecColumn, recRow, iRecRow int, isFast bool, compare func(t1, t2 int64) bool, keep func(src, v bool) bool) {
+func updateBooleanFirstLastImp(iRec, rec *Record, recColumn, iRecColumn, recRow, iRecRow int, isFast bool, compare func(t1, t2 int64) bool) {
 	var v bool
 	if isFast {
 		v = rec.ColVals[recColumn].BooleanValues()[recRow]
@@ -170,7 +168,7 @@ func updateBooleanFirstLastImp(iRec, rec *Record, recColumn, iRecColumn, recRow,
 	if !isSrcNil && compare(t2, t1) {
 		return
 	}
-	if keep(srcVal, v) && !isSrcNil {
+	if booleanCompareGreaterEqual(srcVal, v) && !isSrcNil {
 		return
 	}
 	iRec.UpdateIntervalRecRow(rec, recRow, iRecRow)
@@ -179,25 +177,25 @@ func updateBooleanFirstLastImp(iRec, rec *Record, recColumn, iRecColumn, recRow,
 func UpdateBooleanFirst(iRec, rec *Record, recColumn, iRecColumn, recRow, iRecRow int) {
 	updateBooleanFirstLastImp(iRec, rec, recColumn, iRecColumn, recRow, iRecRow, false, func(t1, t2 int64) bool {
 		return t1 > t2
-	}, booleanCompareLessEqual)
+	})
 }
 
 func UpdateBooleanFirstFast(iRec, rec *Record, recColumn, iRecColumn, recRow, iRecRow int) {
 	updateBooleanFirstLastImp(iRec, rec, recColumn, iRecColumn, recRow, iRecRow, true, func(t1, t2 int64) bool {
 		return t1 > t2
-	}, booleanCompareLessEqual)
+	})
 }
 
 func UpdateBooleanLast(iRec, rec *Record, recColumn, iRecColumn, recRow, iRecRow int) {
 	updateBooleanFirstLastImp(iRec, rec, recColumn, iRecColumn, recRow, iRecRow, false, func(t1, t2 int64) bool {
 		return t1 < t2
-	}, booleanCompareGreaterEqual)
+	})
 }
 
 func UpdateBooleanLastFast(iRec, rec *Record, recColumn, iRecColumn, recRow, iRecRow int) {
 	updateBooleanFirstLastImp(iRec, rec, recColumn, iRecColumn, recRow, iRecRow, true, func(t1, t2 int64) bool {
 		return t1 < t2
-	}, booleanCompareGreaterEqual)
+	})
 }
 
 func updateStringFirstLastImp(iRec, rec *Record, recColumn, iRecColumn, recRow, iRecRow int, compare func(t1, t2 int64) bool) {
@@ -336,7 +334,7 @@ func UpdateFloatColumnLastFast(iRec, rec *Record, recColumn, iRecColumn, recRow,
 	})
 }
 
-func updateBooleanColumnFirstLastImp(iRec, rec *Record, recColumn, iRecColumn, recRow, iRecRow int, isFast bool, compare func(t1, t2 int64) bool, keep func(src, v bool) bool) {
+func updateBooleanColumnFirstLastImp(iRec, rec *Record, recColumn, iRecColumn, recRow, iRecRow int, isFast bool, compare func(t1, t2 int64) bool) {
 	var v bool
 	if isFast {
 		v = rec.ColVals[recColumn].BooleanValues()[recRow]
@@ -357,7 +355,7 @@ func updateBooleanColumnFirstLastImp(iRec, rec *Record, recColumn, iRecColumn, r
 	if !isSrcNil && compare(rec.RecMeta.Times[recColumn][recRow], iRec.RecMeta.Times[iRecColumn][iRecRow]) {
 		return
 	}
-	if keep(srcVal, v) && !isSrcNil {
+	if booleanCompareGreaterEqual(srcVal, v) && !isSrcNil {
 		return
 	}
 	iRec.ColVals[iRecColumn].UpdateBooleanValue(v, false, iRecRow)
@@ -367,25 +365,25 @@ func updateBooleanColumnFirstLastImp(iRec, rec *Record, recColumn, iRecColumn, r
 func UpdateBooleanColumnFirst(iRec, rec *Record, recColumn, iRecColumn, recRow, iRecRow int) {
 	updateBooleanColumnFirstLastImp(iRec, rec, recColumn, iRecColumn, recRow, iRecRow, false, func(t1, t2 int64) bool {
 		return t1 > t2
-	}, booleanCompareLessEqual)
+	})
 }
 
 func UpdateBooleanColumnFirstFast(iRec, rec *Record, recColumn, iRecColumn, recRow, iRecRow int) {
 	updateBooleanColumnFirstLastImp(iRec, rec, recColumn, iRecColumn, recRow, iRecRow, true, func(t1, t2 int64) bool {
 		return t1 > t2
-	}, booleanCompareLessEqual)
+	})
 }
 
 func UpdateBooleanColumnLast(iRec, rec *Record, recColumn, iRecColumn, recRow, iRecRow int) {
 	updateBooleanColumnFirstLastImp(iRec, rec, recColumn, iRecColumn, recRow, iRecRow, false, func(t1, t2 int64) bool {
 		return t1 < t2
-	}, booleanCompareGreaterEqual)
+	})
 }
 
 func UpdateBooleanColumnLastFast(iRec, rec *Record, recColumn, iRecColumn, recRow, iRecRow int) {
 	updateBooleanColumnFirstLastImp(iRec, rec, recColumn, iRecColumn, recRow, iRecRow, true, func(t1, t2 int64) bool {
 		return t1 < t2
-	}, booleanCompareGreaterEqual)
+	})
 }
 
 func updateStringColumnFirstLastImp(iRec, rec *Record, recColumn, iRecColumn, recRow, iRecRow int, compare func(t1, t2 int64) bool) {
